@@ -29,13 +29,18 @@ Proof. exact key_hole_refuted. Qed.
 
 (* declared function names of command wrappers *)
 Theorem C01_fn_hole : forall name,
-  plain_ident name = true -> kf_reserved_fn name = false -> hole_ok HFn (camel name) = true.
+  plain_ident name = true -> kf_reserved_fn name = false -> hole_ok HFn (camel2 name) = true.
 Proof. exact fn_hole. Qed.
 
 Theorem C01_fn_hole_refuted :
-  hole_ok HFn (camel (L "delete")) = false /\ hole_ok HFn (camel (L "r#match")) = false /\
-  hole_ok HFn (event_fn (L "user:created/now")) = false /\ hole_ok HFn (camel (L "_2fa")) = false.
+  hole_ok HFn (camel2 (L "delete")) = false /\ hole_ok HFn (camel2 (L "r#match")) = false /\
+  hole_ok HFn (camel2 (L "_2fa")) = false.
 Proof. exact fn_hole_refuted. Qed.
+
+(* listener names: since the repair of C01-event-fn (every non-alphanumeric character of the event name
+   becomes an underscore before PascalCase) the declared name is a legal identifier for EVERY event name *)
+Theorem C01_event_fn_hole : forall name, hole_ok HFn (event_fn name) = true.
+Proof. exact event_fn_hole. Qed.
 
 (* declared type / constant names: PascalCase of the command name plus a fixed suffix *)
 Theorem C01_tyname_hole : forall name suffix,
@@ -85,7 +90,9 @@ Definition C01_lex_compositional_full_statement : Prop :=
 Example C01_ex_key : plain_ident (L "user_id") = true /\ kebab_rule (eff_rule (Some RCamel) (L "snake_case")) = false /\
   serialized (L "user_id") None (Some RCamel) (L "snake_case") = L "userId".
 Proof. vm_compute. repeat split. Qed.
-Example C01_ex_fn : plain_ident (L "get_user") = true /\ kf_reserved_fn (L "get_user") = false /\ camel (L "get_user") = L "getUser".
+Example C01_ex_event_fn : event_fn (L "user:created/now") = L "onUserCreatedNow" /\ event_fn (L "app://ready") = L "onAppReady".
+Proof. exact event_fn_example. Qed.
+Example C01_ex_fn : plain_ident (L "get_user") = true /\ kf_reserved_fn (L "get_user") = false /\ camel2 (L "get_user") = L "getUser".
 Proof. vm_compute. repeat split. Qed.
 Example C01_ex_message : escape_js (L "say ""hi"" \ ok") = L "say \""hi\"" \\ ok".
 Proof. vm_compute. reflexivity. Qed.
@@ -101,6 +108,7 @@ Print Assumptions C01_key_hole_no_rename.
 Print Assumptions C01_key_hole_refuted.
 Print Assumptions C01_fn_hole.
 Print Assumptions C01_fn_hole_refuted.
+Print Assumptions C01_event_fn_hole.
 Print Assumptions C01_tyname_hole.
 Print Assumptions C01_str_hole_command.
 Print Assumptions C01_str_hole_event.
